@@ -571,6 +571,9 @@ func run(r *vk.Run, prog []model.Node, partials map[string][]model.Node, compact
 	if want.Unspec == "" && want.Err == "" {
 		r.Class(strings.SplitN(class, "/", 2)[0] + "/reference-defined")
 	}
+	if want.Lenient != "" && base.Err != nil && strings.Contains(base.Err.Error(), "unknown identifier") {
+		return nil // forgiving an unknown identifier raised inside a tested expression is not demanded
+	}
 	if want.Unspec == "" && want.Err == "" && !match.SameText(want.Out, base.Out) {
 		return fail("canonical renders %q, the reference interpreter says %q", base.Out, want.Out)
 	}
